@@ -195,7 +195,7 @@ def sany(path):
     return (not bad), p.stdout
 
 
-def eval_cases(module, cases, nparts=12, env=None, timeout=900, cfg=None, keep_order=True):
+def eval_cases(module, cases, nparts=12, env=None, timeout=900, cfg=None, keep_order=True, multi=False):
     """Feed `cases` (list of dicts, each with a unique 'id') to a case-evaluating model
     (Cases == JsonDeserialize(IOEnv.CASES), one state per case, EMIT per case).
     Returns (dict id -> emitted record, merged TLCResult)."""
@@ -229,10 +229,11 @@ def eval_cases(module, cases, nparts=12, env=None, timeout=900, cfg=None, keep_o
         tot.generated += r.generated
         tot.distinct += r.distinct
         tot.wall = max(tot.wall, r.wall)
-        for rec in r.emits:
-            out[rec['id']] = rec
+        if not multi:
+            for rec in r.emits:
+                out[rec['id']] = rec
         tot.emits += r.emits
-    if len(out) != len(cases):
+    if not multi and len(out) != len(cases):
         raise TLCError(f'{module}: {len(cases)} cases in, {len(out)} records out')
     return out, tot
 
